@@ -1,0 +1,349 @@
+//go:build verif
+
+package main
+
+import (
+	"bufio"
+	"encoding/base64"
+	"encoding/json"
+	"fmt"
+	"os"
+	"runtime/debug"
+	"strings"
+	"ti/base"
+	"ti/cmd"
+	"ti/context"
+	"ti/lexer"
+	"ti/lexer/reader"
+	"ti/parser"
+	"ti/verifhook"
+	"time"
+	"unicode/utf8"
+)
+
+// Serve mode for the /verif runtime monitors: with TI_VERIF_SERVE=1 the
+// process answers analysis requests on stdin/stdout instead of analysing
+// os.Args once. Every request starts from a fresh copy of the state the
+// process had after package initialisation, runs the same functions main()
+// runs, in the same order, and reports what was observed.
+
+type verifRequest struct {
+	ID        int      `json:"id"`
+	Op        string   `json:"op"` // run | lex | ping
+	Argv      []string `json:"argv"`
+	BudgetEOF int64    `json:"budget_eof"`
+	BudgetTok int64    `json:"budget_tok"`
+	Dump      bool     `json:"dump"`
+	Texts     []string `json:"texts"` // lex: base64 inputs
+	NoRestore bool     `json:"no_restore"`
+}
+
+type verifDumpDiff struct {
+	Key    string `json:"key"`
+	Before string `json:"before"`
+	After  string `json:"after"`
+}
+
+type verifLexResult struct {
+	Advances  int64  `json:"advances"`
+	Ended     bool   `json:"ended"`
+	Pos       int    `json:"pos"`
+	Len       int    `json:"len"`
+	Pending   bool   `json:"pending"`
+	Budget    string `json:"budget,omitempty"`
+	Panic     string `json:"panic,omitempty"`
+	Reads     int64  `json:"reads"`
+	ReadError string `json:"read_error,omitempty"`
+	ReadPos   int    `json:"read_pos"`
+	RBudget   string `json:"rbudget,omitempty"`
+	RPanic    string `json:"rpanic,omitempty"`
+	Stack     string `json:"stack,omitempty"`
+}
+
+type verifResponse struct {
+	ID        int              `json:"id"`
+	Stdout    string           `json:"stdout"`
+	StdoutB64 string           `json:"stdout_b64,omitempty"`
+	Exit      int              `json:"exit"`
+	Exited    bool             `json:"exited"`
+	Panic     string           `json:"panic,omitempty"`
+	Stack     string           `json:"stack,omitempty"`
+	Budget    string           `json:"budget,omitempty"`
+	Tokens    int64            `json:"tokens"`
+	EOFReads  int64            `json:"eof_reads"`
+	DumpDiff  []verifDumpDiff  `json:"dump_diff,omitempty"`
+	DumpSize  int              `json:"dump_size,omitempty"`
+	Lex       []verifLexResult `json:"lex,omitempty"`
+	WallUs    int64            `json:"wall_us"`
+	RestoreUs int64            `json:"restore_us"`
+	Roots     []string         `json:"roots,omitempty"`
+}
+
+var verifBaselineKeys, verifBaselineValues []string
+
+func init() {
+	if os.Getenv("TI_VERIF_SERVE") != "1" {
+		return
+	}
+
+	verifServe()
+	os.Exit(0)
+}
+
+func verifServe() {
+	debug.SetMaxStack(64 << 20)
+
+	verifhook.Serving = true
+	verifhook.Snapshot()
+	base.VerifCaptureBuiltinKeys()
+	verifBaselineKeys, verifBaselineValues = base.VerifDumpBuiltin()
+
+	protoOut := os.Stdout
+	realArgs := os.Args
+
+	capture, err := os.CreateTemp("", "ti-verif-out")
+	if err != nil {
+		fmt.Fprintln(os.Stderr, "verif: cannot create capture file:", err)
+		os.Exit(3)
+	}
+
+	os.Remove(capture.Name())
+
+	in := bufio.NewReaderSize(os.Stdin, 1<<20)
+	out := bufio.NewWriter(protoOut)
+	enc := json.NewEncoder(out)
+
+	for {
+		line, err := in.ReadBytes('\n')
+		if len(line) == 0 && err != nil {
+			return
+		}
+
+		var req verifRequest
+		if jerr := json.Unmarshal(line, &req); jerr != nil {
+			fmt.Fprintln(os.Stderr, "verif: bad request:", jerr)
+			os.Exit(3)
+		}
+
+		resp := verifResponse{ID: req.ID}
+		start := time.Now()
+
+		switch req.Op {
+		case "ping":
+			resp.Roots = verifhook.RootNames()
+			resp.DumpSize = len(verifBaselineKeys)
+
+		case "lex":
+			for _, b64 := range req.Texts {
+				text, _ := base64.StdEncoding.DecodeString(b64)
+				resp.Lex = append(resp.Lex, verifLexProbe(string(text), req.BudgetEOF, req.BudgetTok))
+			}
+
+		default:
+			if !req.NoRestore {
+				verifhook.Restore()
+				resp.RestoreUs = time.Since(start).Microseconds()
+			}
+
+			capture.Truncate(0)
+			capture.Seek(0, 0)
+
+			os.Stdout = capture
+			os.Args = req.Argv
+
+			verifhook.ResetSteps(req.BudgetEOF, req.BudgetTok)
+			verifRunOnce(&resp)
+
+			resp.Tokens = verifhook.Tokens
+			resp.EOFReads = verifhook.EOFReads
+
+			verifhook.ResetSteps(0, 0)
+
+			os.Stdout = protoOut
+			os.Args = realArgs
+
+			size, _ := capture.Seek(0, 1)
+			buf := make([]byte, size)
+			capture.ReadAt(buf, 0)
+
+			if utf8.Valid(buf) {
+				resp.Stdout = string(buf)
+			} else {
+				resp.StdoutB64 = base64.StdEncoding.EncodeToString(buf)
+			}
+
+			if req.Dump {
+				keys, values := base.VerifDumpBuiltin()
+				resp.DumpSize = len(keys)
+
+				for i := range keys {
+					if values[i] != verifBaselineValues[i] {
+						resp.DumpDiff = append(resp.DumpDiff, verifDumpDiff{
+							Key:    keys[i],
+							Before: verifBaselineValues[i],
+							After:  values[i],
+						})
+					}
+				}
+			}
+		}
+
+		resp.WallUs = time.Since(start).Microseconds()
+
+		enc.Encode(&resp)
+		out.Flush()
+
+		if err != nil {
+			return
+		}
+	}
+}
+
+// verifRunOnce restates the body of the worker goroutine of main().
+func verifRunOnce(resp *verifResponse) {
+	defer func() {
+		r := recover()
+
+		switch v := r.(type) {
+		case nil:
+		case verifhook.ExitCalled:
+			resp.Exit = v.Code
+			resp.Exited = true
+		case verifhook.BudgetHit:
+			resp.Budget = v.Kind
+			resp.Stack = string(debug.Stack())
+		default:
+			resp.Exit = 2
+			resp.Panic = fmt.Sprintf("%v", r)
+			resp.Stack = string(debug.Stack())
+		}
+	}()
+
+	var br *bufio.Reader
+	var file string
+
+	cmd.ValidateArgs()
+	flags := cmd.BuildFlags()
+
+	if flags.IsHelp {
+		cmd.PrintHelp()
+		return
+	}
+
+	if flags.IsVersion {
+		cmd.PrintVersion()
+		return
+	}
+
+	if flags.IsAllType {
+		cmd.PrintAllTypes()
+		return
+	}
+
+	for _, round := range context.GetRounds() {
+		file = cmd.GetTargetFile()
+		fp, _ := os.Open(file)
+		br = bufio.NewReader(fp)
+
+		p := getParser(br, file)
+
+		if fp != nil {
+			fp.Close()
+		}
+
+		cmd.ApplyParserFlags(&p)
+
+		cleanSimpleIdentifires()
+
+		preload(round, flags)
+		evaluationLoop(p, flags, round, false)
+	}
+}
+
+// verifLexProbe drives the public lexer and parser API over one text.
+func verifLexProbe(text string, budgetEOF, budgetTok int64) (res verifLexResult) {
+	newLexer := func() lexer.Lexer {
+		br := bufio.NewReader(strings.NewReader(text))
+		return lexer.New(reader.New(*br))
+	}
+
+	// 1. repeated Advance()
+	func() {
+		l := newLexer()
+
+		defer func() {
+			if r := recover(); r != nil {
+				switch v := r.(type) {
+				case verifhook.BudgetHit:
+					res.Budget = v.Kind
+				default:
+					res.Panic = fmt.Sprintf("%v", r)
+				}
+
+				res.Stack = string(debug.Stack())
+			}
+
+			pos, length, unget, history := l.VerifReaderState()
+			res.Pos, res.Len = pos, length
+			res.Pending = history > 0 || unget
+		}()
+
+		verifhook.ResetSteps(budgetEOF, 0)
+
+		limit := budgetTok
+		for l.Advance() {
+			res.Advances++
+
+			if limit > 0 && res.Advances > limit {
+				res.Budget = "advances"
+				return
+			}
+		}
+
+		res.Ended = true
+	}()
+
+	// 2. repeated Parser.Read()
+	func() {
+		l := newLexer()
+		p := parser.New(l, "probe.rb")
+
+		defer func() {
+			if r := recover(); r != nil {
+				switch v := r.(type) {
+				case verifhook.BudgetHit:
+					res.RBudget = v.Kind
+				default:
+					res.RPanic = fmt.Sprintf("%v", r)
+				}
+
+				if res.Stack == "" {
+					res.Stack = string(debug.Stack())
+				}
+			}
+
+			pos, _, _, _ := p.Lexer.VerifReaderState()
+			res.ReadPos = pos
+		}()
+
+		verifhook.ResetSteps(budgetEOF, budgetTok)
+
+		for {
+			t, err := p.Read()
+			if err != nil {
+				res.ReadError = err.Error()
+				return
+			}
+
+			if t == nil {
+				return
+			}
+
+			res.Reads++
+		}
+	}()
+
+	verifhook.ResetSteps(0, 0)
+
+	return res
+}
